@@ -4,6 +4,8 @@
 //!   mdv <Cxx> --replay <file>       re-execute exactly one recorded case
 
 mod checks;
+mod dest;
+mod idle;
 
 use mdv_core::report::{load_replay, Report, Tier};
 
